@@ -346,6 +346,28 @@ func (x *c16) nonStringReceivers() {
 	}
 }
 
+// numberReceivers: a number given as receiver acts as the text it prints as, whatever its Go width.
+func (x *c16) numberReceivers() {
+	vals := []any{float32(0.1), float32(2.7), float32(-0.3), float32(1e-3), 0.1, 2.7, 1e21, 1e-7, float32(16777217), int8(-7), uint64(1 << 63), int64(-1 << 62), uint8(200), 3.0, float32(4), -0.5}
+	for _, v := range vals {
+		printed := core.Run(x.e, "{{ v }}", map[string]any{"v": v})
+		x.c.Eval(1)
+		if !printed.OK() {
+			continue
+		}
+		p := printed.Out
+		x.expect("append", "a number receiver acts as the text it prints as", v, p+"!", "!")
+		x.expect("prepend", "a number receiver acts as the text it prints as", v, "!"+p, "!")
+		x.expect("size", "a number receiver acts as the text it prints as (append then size)", p, fmt.Sprint(len([]rune(p))))
+		x.expect("upcase", "a number receiver acts as the text it prints as", v, strings.ToUpper(p))
+		x.expect("replace", "a number receiver acts as the text it prints as", v, strings.ReplaceAll(p, "0", "o"), "0", "o")
+		x.expect("slice", "a number receiver acts as the text it prints as", v, firstRune(p), 0)
+		x.expect("truncate", "a number receiver acts as the text it prints as", v, p, 40, "")
+		x.expect("split", "a number receiver acts as the text it prints as", v, p, "|")
+		x.c.Distinct("numrecv", fmt.Sprintf("%T %v", v, v))
+	}
+}
+
 func firstRune(s string) string {
 	for _, r := range s {
 		return string(r)
@@ -357,6 +379,7 @@ func runC16(c *core.Ctx) {
 	x := &c16{c: c, e: liquid.NewEngine(), t: map[string]*liquid.Template{}}
 	if c.Shard == 0 && c.Begin("non-string receivers") {
 		x.nonStringReceivers()
+		x.numberReceivers()
 	}
 	total := gen.CountStrings(len(c16Alpha), c.Pick(4, 5))
 	reps := c.Pick(2, 4)
